@@ -228,6 +228,11 @@ func (c *Compressor) compressValue(v float64) (uint64, error) {
 
 	leadingZeros := leardingZeros(xor)
 	trailingZeros := trailingZeros(xor)
+	// The number of leading zeros is stored in 5 bits, so it can be at most 31.
+	// Extra leading zeros are stored as part of the significant bits.
+	if leadingZeros >= 32 {
+		leadingZeros = 31
+	}
 
 	if err := c.bw.writeBit(one); err != nil {
 		log.Errorf("Compressor.compressValue: failed to write one bit. compressor=%+v, bitWriter=%+v, err=%v", c, c.bw, err)
